@@ -66,3 +66,31 @@ Proof. vm_compute. reflexivity. Qed.
 
 Example C02_legacy_refuted : agree (catchup true 8 exD exU id_dev 0%Z) = false.
 Proof. vm_compute. reflexivity. Qed.
+
+(* What the hash short-cut of syncNode cannot see (recorded finding equal-hash-different-content).
+   A catch-up pass on a node whose compared hashes are equal returns both stores unchanged whatever lies
+   below it ... *)
+Theorem C02_equal_hash_is_a_fixpoint :
+  forall legacy f D U dev parent id now nl ls nu us,
+  let parent' := if bytes_eqb parent str_root then str_all else parent in
+  get_nodes D parent' id true = nl :: ls -> get_nodes U parent' id true = nu :: us ->
+  forallb edge_deleted (nu :: us) && (legacy || bytes_eqb (e_down nl) dev) = false ->
+  (if bytes_eqb (e_down nl) dev then N.lxor (e_hash nl) (xor_epts nl) else e_hash nl) =
+  (if bytes_eqb (e_down nl) dev then N.lxor (e_hash nu) (xor_epts nu) else e_hash nu) ->
+  sync_node legacy f D U dev parent id now = (D, U).
+Proof. exact sync_node_blind. Qed.
+Print Assumptions C02_equal_hash_is_a_fixpoint.
+
+(* ... and equal hashes do not mean equal content: the full convergence statement is false of the faithful
+   model.  Witness: the same point written, during an outage, to child c downstream and to its sibling e
+   upstream.  All stored hashes are the correct Merkle hashes, the device hashes are equal, every catch-up
+   leaves both sides as they are, and they differ.  (Replayed on two real instances by corpus/C02.) *)
+Theorem C02_convergence_refuted :
+  exists D U dev,
+    spec_hashes_ok (project D) = true /\ spec_hashes_ok (project U) = true /\
+    catchup false 8 D U dev 0%Z = (D, U) /\ agree (D, U) = false /\
+    blind_only dev (dev_tree D) (dev_tree U) = true.
+Proof.
+  exists blD, blU, id_dev. destruct hash_blind_example as (H1 & H2 & H3 & H4 & H5). repeat split; assumption.
+Qed.
+Print Assumptions C02_convergence_refuted.
